@@ -3,6 +3,8 @@ from valib import tabrules as TR
 from valib.tabrules import Tab
 from valib import construles as CR
 
+from valib.core import loc_str as loc_str_
+
 LEVEL = "other"
 
 
@@ -28,6 +30,14 @@ def run(chk, prog, tier):
         ERR = None
     if ERR is not None:
         ERR.c10_rules(chk, prog, tab) if hasattr(ERR, "c10_rules") else None
+    # empty operands: every operand (not only the first) passes the leading-comma test of the operand tokenizer
+    from checks import C09
+    for fn, f in sorted(prog.lib_functions().items()):
+        from valib.core import walk, callee_name
+        if any(c.get("kind") == "CallExpr" and callee_name(c) == fn for c in walk(prog.body(f))) and \
+                any(c.get("kind") == "CallExpr" and callee_name(c) == "strtok_r" for c in walk(prog.body(f))):
+            holds, why = C09._premise_holds(prog, fn, "all_opd")
+            chk.require(holds, "EMPTY", "EMPTY/%s" % fn, loc_str_(f), "the recursive operand tokenizer rejects an empty operand (leading comma) at every recursion level", why)
     chk.explanation = ("Decides: every row accepts only operand-kind tuples the ISA defines for that form (rows x kind strings, "
                        "against the x86 reference), the kind-string -> format map, the scale set. Known findings: the \"\"/\"i\" "
                        "format conflation (per row). NOT decided: which concrete strings reach which check.")
